@@ -44,3 +44,11 @@ pub fn count(cfg: &util::RunCfg, quick: u64, thorough: u64) -> u64 {
     let s = *SCALE.get().unwrap_or(&1.0);
     ((base as f64 * s).ceil() as u64).max(1)
 }
+
+pub static THOROUGH: std::sync::atomic::AtomicBool = std::sync::atomic::AtomicBool::new(false);
+
+/// true in the thorough tier: monitors then also use longer histories,
+/// call sequences and operation streams, not only more of them
+pub fn thorough() -> bool {
+    THOROUGH.load(std::sync::atomic::Ordering::Relaxed)
+}
